@@ -103,7 +103,7 @@ Definition allowed (a : astate) (t : Z) (e : nat) : option Z :=
   end.
 
 (* Scheduler::perform(t) driven by the implementation's choices cs; k = slot budget *)
-Fixpoint aperform (C : consts) (E : env) (k : nat) (a : astate) (t : Z) (cs : list nat)
+Fixpoint aperform (C : consts) (E : env) (k : nat) (a : astate) (t : Z) (cs : list nat) {struct cs}
   : astate * list ev * aoutcome :=
   match cs with
   | [] => match amin (a_due a) with
